@@ -183,6 +183,27 @@
 #define FRAME_IDX(base, lo, hi) (IMPLIES (!IN_IDX (0, base, lo, hi), SAME_CELL (0)) && IMPLIES (!IN_IDX (1, base, lo, hi), SAME_CELL (1)) && IMPLIES (!IN_IDX (2, base, lo, hi), SAME_CELL (2)))
 
 
+/* a buffer obtained during the call held no live element, and was no live block, on entry (what allocate () guarantees: needed where a
+   reallocating operation is replaced by its contract inside a caller's loop) */
+#define FRESH_WAS_RAW1(s, i) IMPLIES (DATA (s) != 0 && SAMEOBJ (WP[i], DATA (s)) && WP[i] == __CPROVER_old (WP[i]), __CPROVER_old (WS[i]) == S_RAW)
+#define FRESH_WAS_RAW(s) (IMPLIES (DATA (s) != ODATA (s) && HASALLOC (s, CAP_N), FRESH_WAS_RAW1 (s, 0) && FRESH_WAS_RAW1 (s, 1) && FRESH_WAS_RAW1 (s, 2)) \
+                          && IMPLIES (DATA (s) != ODATA (s) && HASALLOC (s, CAP_N) && WB == DATA (s), __CPROVER_old (WBL) == 0))
+/* assign from a single-pass range: the element at index j < n is a copy of the j-th source position (destination WP[0], source WP[1]) */
+#define COPIED_IDX0(dbase, n, sbase) \
+  IMPLIES (IN_IDX (0, dbase, 0, n) && SAMEOBJ (WP[1], sbase) && OFF (WP[1]) >= OFF (sbase) && BIDX (WP[0], dbase) == BIDX (WP[1], sbase), WS[0] == __CPROVER_old (WS[1]))
+/* generator (C15): the k-th call yields GENV (k); the element at index k of the constructed container is the k-th value */
+#define GENV(k) ((GEN_BASE + (int) (k)) == S_RAW || (GEN_BASE + (int) (k)) == S_MF ? 0 : (GEN_BASE + (int) (k)))
+#define GEN_PTRS(lo, hi) IMPLIES (IN_PTRS (WP[0], lo, hi), WS[0] == GENV (DIVESZ (OFF (WP[0]) - OFF (lo))))
+/* ---- loop-entry forms of the exactness predicates (loops that call container operations: single-pass ranges, C15) ---- */
+#define LE(x) __CPROVER_loop_entry (x)
+#define EXACT1_LE(s, i) IFF (LIVE (i), IN_RANGE (WP[i], DATA (s), SZ (s)) || (LE (WS[i]) != S_RAW && !IN_RANGE (WP[i], LE (DATA (s)), LE (SZ (s)))))
+#define EXACT_LE(s)  (EXACT1_LE (s, 0) && EXACT1_LE (s, 1) && EXACT1_LE (s, 2))
+#define EXACTB_LE(s) IFF (WBL, (WB == DATA (s) && HASALLOC (s, CAP_N)) || (LE (WBL) != 0 && !(WB == LE (DATA (s)) && (CONSTEVAL || LE (CAP (s)) != (unsigned long) CAP_N))))
+/* the caller's single-pass range [S_CUR, S_END): valid, readable, live, and no part of the container */
+#define SP_RANGE(s) (RANGE_OK (S_CUR, S_END) && __CPROVER_r_ok (S_CUR, OFF (S_END) - OFF (S_CUR)) && LIVE_BETWEEN (S_CUR, S_END) \
+                     && !SAMEOBJ (S_CUR, (s)) && (DATA (s) == 0 || !SAMEOBJ (S_CUR, DATA (s))))
+#define GHOST_SP S_CUR, S_DEREF_DONE
+
 /* ---- documented noexcept conditions (README synopsis), over the configuration facts (C18) ---------
  * std::is_same<std::allocator<T>, Allocator> is false in every configuration (the allocator is vt::alloc).
  * In every configuration the element's move constructor, move assignment and swap are nothrow together (FACT_MOVE_NOEXCEPT). */
